@@ -269,7 +269,12 @@ def r_cpu_physical(e, R):
     R.check(okw, "R-CPU-PHYSICAL", "the fallback warns only when the probe reported an exception (i.e. once)", f.short, "if exception is not None: warn",
             "the fallback warning is unconditional (every call) or never issued", e.loc(f, f.node))
     # the probe: validation inside the try, any failure -> ('not found', exc), cache written on every path, cached early return
-    pf = e.prog.func(f"{CX}:_count_physical_cores")
+    # the probe: the function of the module that keeps a module-level cache (declares a global) and returns a pair
+    cands = [f_ for q_, f_ in e.prog.funcs.items() if f_.module.name == CX and f_.kind != "module" and f_.globals_decl
+             and any(isinstance(n, ast.Return) and isinstance(n.value, ast.Tuple) and len(n.value.elts) == 2 for n in func_nodes(f_))]
+    if len(cands) != 1:
+        raise AnalysisError(f"anchor vanished: the cached physical-core probe ({[c.short for c in cands]})")
+    pf = cands[0]
     pg = e.cfg(pf)
     cache = sorted(pf.globals_decl)
     R.check(len(cache) == 1, "R-CPU-PHYSICAL", "the probe caches its result in one module global", pf.short, str(cache), "cache global missing", e.loc(pf, pf.node))
